@@ -840,8 +840,21 @@ class NumAnalysis:
             set_dest_int(self.top(dty))
         elif is_slice_ref(dty):
             set_dest_len(self.result_len(st, c))
-        if any(t.startswith("&mut") or "closure" in t for t in c["argtys"]) and not any(callee.startswith(p) for p in PURE_PREFIXES + self.pure_calls):
-            self.havoc_mem(st)
+        if not any(callee.startswith(p) for p in PURE_PREFIXES + self.pure_calls):
+            for a, t in zip(c["args"], c["argtys"]):
+                if "closure" in t:
+                    self.havoc_mem(st)
+                    break
+                if t.startswith("&mut"):
+                    pj = a.get("mv") or a.get("cp")
+                    root = self.ref_root_deep(mk_place(pj)) if pj is not None else None
+                    if root is None or not any(e == ("deref",) for e in root[1]):
+                        if root is None:
+                            self.havoc_mem(st)
+                            break
+                        self.kill_tree(st, root[0], root[1])
+                    else:
+                        self.havoc_prefix(st, root)
 
     def havoc_mem_keep_len(self, st):
         # copying bytes does not change lengths; integer fields cannot be reached through a byte slice
@@ -859,6 +872,29 @@ class NumAnalysis:
                     v = ("mlen", root[0], root[1])
                     return dict(lo=max(0, st.z.lo(v)), hi=min(LEN_MAX, st.z.hi(v)), rel=[(v, 0, 0)])
         return dict(lo=0, hi=LEN_MAX, rel=[])
+
+    def havoc_prefix(self, st, root):
+        l, proj = root
+        n = len(proj)
+
+        def pred(v):
+            return isinstance(v, tuple) and len(v) == 3 and v[0] in ("v", "len", "mlen") and v[1] == l and (v[2][:n] == proj or proj[:len(v[2])] == v[2])
+        st.z.forget_many(pred)
+        for k in [k for k, (op, a, b) in st.bools.items() if pred(a) or pred(b)]:
+            del st.bools[k]
+
+    def ref_root_deep(self, pl, depth=0):
+        """follow reborrows `_x = &mut *_y` down to the place the reference was created from"""
+        r = self.ref_root(pl)
+        if r is None:
+            return None
+        if depth < 5 and r[1] == (("deref",),):
+            deeper = self.ref_root_deep((r[0], ()), depth + 1)
+            if deeper is not None:
+                return deeper
+            if 1 <= r[0] <= self.fn.argc:
+                return r
+        return r
 
     def ref_root(self, pl):
         """place a reference local was created from (`_x = &P` / `&mut P`), following one level"""
